@@ -55,7 +55,7 @@ func init() {
 		ID: "C16", NoShrink: true,
 		Rule: "te: ServeConn pipelines where some handlers call TimeoutError (some after asking for a hijack, with or without HijackSetNoResponse; some answering through TimeoutErrorWithResponse(&ctx.Response) and then rewriting that response in place; some leaving a streamed 9000-byte request body unread, after which nothing more may be served) and keep mutating the ctx (GET/HEAD/POST, HTTP/1.0 keep-alive and 1.1) followed by ordinary requests; " +
 			"wrap: Serve + TimeoutHandler(120ms) with inner handlers parked on gates past the deadline that afterwards rewrite status, headers and body, released by the NEXT request's handler so that late writes race with the next response; " +
-			"conc: Concurrency N with N+1 connections holding slow wrapped handlers; wrapc: Concurrency 1..2, one connection, handlers that outlive their timeout and keep running while later requests arrive (status sequence = the Lean semaphore model, peak running <= N); monitor: timed-out requests get exactly the timeout status/message (no body for HEAD), no late write on the wire, later requests answered normally, " +
+			"conc: Concurrency N with N+1 connections holding slow wrapped handlers; wrapc: Concurrency 1..2, one connection, handlers that outlive their timeout and keep running while later requests arrive, and that return later (R) after which the slots must be free again (status sequence = the Lean semaphore model, peak running <= N); monitor: timed-out requests get exactly the timeout status/message (no body for HEAD), no late write on the wire, later requests answered normally, " +
 			"at most N wrapped handlers inside, excess get 429; non-trivial = at least one timed-out request followed by another request; distinct = distinct input",
 		Parallel: false,
 		Build: func(kind string, a [][]byte) *Case {
@@ -306,8 +306,11 @@ func init() {
 				// sequential requests, so the number of wrapped handlers running at each call is known.
 				n := int(a[0][0] - '0')
 				script := string(a[1])
-				release := make(chan struct{})
+				var relMu sync.Mutex
+				release := make(chan struct{}) // closed by an R step (and at the end): every parked handler returns
+				curRelease := func() chan struct{} { relMu.Lock(); defer relMu.Unlock(); return release }
 				var inside, maxInside, started atomic.Int32
+				stuck := ""
 				inner := func(ctx *fasthttp.RequestCtx) {
 					started.Add(1)
 					v := inside.Add(1)
@@ -319,7 +322,7 @@ func init() {
 					}
 					defer inside.Add(-1)
 					if ctx.QueryArgs().Has("slow") {
-						<-release
+						<-curRelease()
 						return
 					}
 					ctx.SetBodyString("fast")
@@ -333,6 +336,22 @@ func init() {
 				if c, err := ln.Dial(); err == nil {
 					br := bufio.NewReader(c)
 					for i := 0; i < len(script); i++ {
+						if script[i] == 'R' {
+							// every handler that outlived its timeout returns now; later calls must find the slots free again
+							relMu.Lock()
+							close(release)
+							release = make(chan struct{})
+							relMu.Unlock()
+							for w := 0; inside.Load() != 0; w++ {
+								if w > 1000 {
+									stuck = "handlers did not return within 5 s after they were released"
+									break
+								}
+								time.Sleep(5 * time.Millisecond)
+							}
+							time.Sleep(20 * time.Millisecond) // the slot goes back right after the handler returned, on its goroutine
+							continue
+						}
 						q := fmt.Sprintf("id=%d", i)
 						if script[i] == 's' {
 							q += "&slow=1"
@@ -351,7 +370,7 @@ func init() {
 					c.Close()
 				}
 				peak, ran := maxInside.Load(), started.Load()
-				close(release)
+				close(curRelease())
 				ln.Close()
 				<-done
 				impl := strings.Join(got, " ")
@@ -360,6 +379,12 @@ func init() {
 						desc := fmt.Sprintf("Concurrency=%d, TimeoutHandler(150ms), one connection, script %q (s = handler still running after its timeout): statuses [%s], peak wrapped handlers running %d, handler invocations %d, err=%v", n, script, impl, peak, ran, rerr)
 						if int(peak) > n {
 							return Verdict{VSpec, "wrapped-handlers-exceed-concurrency", desc}
+						}
+						if stuck != "" {
+							return Verdict{VInconclusive, "handlers-stuck", desc + ": " + stuck}
+						}
+						if impl != r[0] && strings.Count(impl, "429") > strings.Count(r[0], "429") {
+							return Verdict{VSpec, "call-rejected-although-slots-free", desc + "; expected [" + r[0] + "]: a call was answered 429 while fewer than Concurrency wrapped handlers were running"}
 						}
 						if impl != r[0] {
 							if strings.Contains(r[0], "429") {
@@ -463,11 +488,13 @@ func init() {
 			for i := 0; i < ncw; i++ {
 				var sc []byte
 				for j, m := 0, 2+r.Intn(4); j < m; j++ {
-					sc = append(sc, "ssf"[r.Intn(3)])
+					sc = append(sc, "ssfR"[r.Intn(4)])
 				}
 				emit("wrapc", []byte{byte('1' + r.Intn(2))}, sc)
 			}
 			emit("wrapc", B("1"), B("sfs"))
+			emit("wrapc", B("2"), B("ssfRfsf"))
+			emit("wrapc", B("1"), B("sRsRf"))
 			emit("wrapsc", B("ff"))
 			emit("conc", B("1"))
 			emit("conc", B("2"))
